@@ -18,3 +18,10 @@ mod ringbuffer;
 pub(crate) mod scratch;
 pub(crate) mod sequence_execution;
 pub(crate) mod sequence_section_decoder;
+
+/// Verification-only re-exports of the crate-private output window types.
+#[cfg(feature = "verif_hooks")]
+pub mod verif {
+    pub use super::decode_buffer::DecodeBuffer;
+    pub use super::ringbuffer::RingBuffer;
+}
